@@ -1,6 +1,7 @@
 package props
 
 import (
+	"regexp"
 	"fmt"
 	"go/types"
 	"strings"
@@ -65,6 +66,42 @@ func stageCondsDeep(dc fw.DeepCall) string {
 		out = append(out, s)
 	}
 	return strings.Join(out, " && ")
+}
+
+// algoOnly: every condition is a direct comparison of the algorithm parameter with a constant
+// (the form the rule can read); a condition computed from the parameter by a helper or read
+// from a descriptor is not.
+var algoAtom = regexp.MustCompile(`^!?\(param:stateResAlgo (==|!=) \d+\)$`)
+
+func algoOnly(got string) bool {
+	if got == "" {
+		return true
+	}
+	for _, a := range strings.Split(got, " && ") {
+		if !algoAtom.MatchString(a) {
+			return false
+		}
+	}
+	return true
+}
+
+// algoVerdict: ok -> Yes; otherwise No when every condition (loop bounds and nil tests aside) is
+// a direct comparison of the algorithm parameter with a constant, Unknown when the path is
+// selected by something the rule cannot read (a flag of a variant descriptor, a helper).
+func algoVerdict(ok bool, conds string) fw.Tri {
+	if ok {
+		return fw.Yes
+	}
+	for _, a := range strings.Split(conds, " && ") {
+		t := strings.TrimPrefix(a, "!")
+		if a == "" || strings.HasPrefix(t, "next(range(") || strings.HasPrefix(t, "((phi(") || strings.HasPrefix(t, "(phi(") || strings.Contains(t, "builtin.len(") || strings.HasSuffix(t, " == nil)") {
+			continue
+		}
+		if !algoAtom.MatchString(a) {
+			return fw.Unknown
+		}
+	}
+	return fw.No
 }
 
 // callChain: the call sites through which a deep call is reached, outermost first, then the call.
@@ -162,7 +199,7 @@ func checkStages(c *fw.Ctx, rule string, fn *ssa.Function, fname string, stages 
 		call := found[0]
 		got := stageCondsDeep(call)
 		if got != st.conds {
-			if strings.Contains(got, "param:stateResAlgo") || got == "" {
+			if algoOnly(got) {
 				c.Fail(rule, construct+" runs under the prescribed condition", c.P.Pos(call.Call.Pos()), fmt.Sprintf("the stage runs when [%s]; the algorithm prescribes [%s]", got, st.conds))
 			} else {
 				c.Undecided(rule, construct+" runs under the prescribed condition", fmt.Sprintf("the stage runs under conditions the rule does not know: [%s]", got))
@@ -686,15 +723,15 @@ func checkAuthDifference(c *fw.Ctx) {
 		s := fw.Sig(r.Results[0])
 		conds := condsOf(r.Block())
 		if strings.Contains(s, ".Union(") {
-			c.Check(strings.Contains(conds, "!(param:stateResAlgo == 2)"), rule, "the conflicted subgraph is added only outside v2", c.P.Pos(fw.InstrPos(r)), conds, "union with the conflicted subgraph under ["+conds+"]")
+			c.Check3(algoVerdict(strings.Contains(conds, "!(param:stateResAlgo == 2)"), conds), rule, "the conflicted subgraph is added only outside v2", c.P.Pos(fw.InstrPos(r)), conds, "union with the conflicted subgraph under ["+conds+"]")
 		} else {
-			c.Check(strings.Contains(conds, "(param:stateResAlgo == 2)") && !strings.Contains(conds, "!(param:stateResAlgo == 2)"), rule, "v2 returns the plain auth difference", c.P.Pos(fw.InstrPos(r)), conds, "plain difference under ["+conds+"]")
+			c.Check3(algoVerdict(strings.Contains(conds, "(param:stateResAlgo == 2)") && !strings.Contains(conds, "!(param:stateResAlgo == 2)"), conds), rule, "v2 returns the plain auth difference", c.P.Pos(fw.InstrPos(r)), conds, "plain difference under ["+conds+"]")
 		}
 	}
 	for _, call := range fw.Calls(fn) {
 		if strings.HasSuffix(fw.CalleeName(call), ".InsertSet") && strings.Contains(fw.Sig(call.Common().Args[len(call.Common().Args)-1]), "calculateFullAuthChainAndConflictedSubgraph") && strings.HasSuffix(fw.Sig(call.Common().Args[len(call.Common().Args)-1]), "#1") {
 			conds := condsOf(call.Block())
-			c.Check(strings.Contains(conds, "(param:stateResAlgo == 3)"), rule, "the conflicted subgraph is collected only for v2.1", c.P.Pos(call.Pos()), conds, "collected under ["+conds+"]")
+			c.Check3(algoVerdict(strings.Contains(conds, "(param:stateResAlgo == 3)"), conds), rule, "the conflicted subgraph is collected only for v2.1", c.P.Pos(call.Pos()), conds, "collected under ["+conds+"]")
 		}
 	}
 }
